@@ -164,7 +164,7 @@ def enumerate_cases(tier):
 
 
 def budget(tier):
-    return 3000 if tier == "quick" else 200000
+    return 3000 if tier == "quick" else 120000
 
 
 def classify(case):
